@@ -91,6 +91,7 @@ type Run struct {
 	sampleKeys  map[string]int
 	violations  []Violation
 	knownSeen   map[string]int
+	sigCount    map[string]int
 	known       []*Finding
 	states      int64
 	transitions int64
@@ -205,10 +206,9 @@ func (r *Run) Violate(sig, caseID, what string, detail any) {
 			return
 		}
 	}
-	if len(r.violations) < 200 {
+	r.sigCount[sig]++
+	if r.sigCount[sig] == 1 && len(r.violations) < 500 {
 		r.violations = append(r.violations, Violation{Sig: sig, Case: caseID, What: what, Detail: detail})
-	} else {
-		r.violations[0].What += ""
 	}
 	r.extraCountViolation()
 }
@@ -300,7 +300,7 @@ func Main(id, tier, replayFile string) int {
 		}
 	}
 	r := &Run{Check: c, Tier: tier, Seed: seed, Start: time.Now(), distinct: map[[8]byte]struct{}{},
-		outcomes: map[string]int64{}, sampleKeys: map[string]int{}, knownSeen: map[string]int{},
+		outcomes: map[string]int64{}, sampleKeys: map[string]int{}, knownSeen: map[string]int{}, sigCount: map[string]int{},
 		extra: map[string]any{}, sections: map[string]*Section{}, exhaustive: true}
 	r.Deadline = r.Start.Add(budget)
 	r.known = loadKnown(id)
@@ -374,12 +374,12 @@ func (r *Run) finish(replaying bool) int {
 		v := bySig[s][0]
 		h := sha256.Sum256([]byte(s))
 		path := filepath.Join(Root, "replays", fmt.Sprintf("%s-%s.json", id, hex.EncodeToString(h[:5])))
-		rep := map[string]any{"property": id, "tier": r.Tier, "seed": r.Seed, "violation": v, "same_signature_cases": len(bySig[s])}
+		rep := map[string]any{"property": id, "tier": r.Tier, "seed": r.Seed, "violation": v, "same_signature_cases": r.sigCount[s]}
 		b, _ := json.MarshalIndent(rep, "", " ")
 		os.WriteFile(path, b, 0o644)
 		fmt.Printf("VIOLATION property=%s replay=%s\n", id, path)
-		fmt.Printf("  what: %s\n  case: %s (%d case(s) with signature %q)\n", v.What, v.Case, len(bySig[s]), s)
-		vioOut = append(vioOut, map[string]any{"sig": s, "case": v.Case, "what": v.What, "cases": len(bySig[s]), "replay": path})
+		fmt.Printf("  what: %s\n  case: %s (%d case(s) with signature %q)\n", v.What, v.Case, r.sigCount[s], s)
+		vioOut = append(vioOut, map[string]any{"sig": s, "case": v.Case, "what": v.What, "cases": r.sigCount[s], "replay": path})
 	}
 	var knownOut []any
 	for _, f := range r.known {
